@@ -21,6 +21,15 @@ INTERESTING = [0x00, 0x01, 0x7f, 0x80, 0x90, 0x91, 0x9f, 0xa0, 0xa1, 0xbf, 0xc0,
                0xd9, 0xda, 0xdb, 0xdc, 0xdd, 0xde, 0xdf, 0xff]
 
 
+# (r, dims): prod(dims) = k * 2^64 + r or 2^32 + r, every dimension below 2^32 (computed once, by factoring)
+WRAPS = [(4, [3340214413, 2761311370, 2]), (5, [2471990109, 1066043567, 7]), (10, [2977518503, 3097670771, 2]),
+         (20, [1197225396, 10827767, 1423]), (21, [1174891961, 19950191, 787]), (22, [521090446, 753197299, 47]),
+         (1, [2996173443, 1119412321, 11]), (3, [1056175639, 998034439, 35]), (8, [3340214413, 2761311370, 4]),
+         (9, [405869537, 910939, 99787]), (13, [3384208571, 3633886365, 3]), (4, [3809879428, 1117342693, 13]),
+         (1, [6700417, 641]), (2, [2147483649, 2]), (3, [613566757, 7]), (5, [1431655767, 3]), (7, [390451573, 11])]
+assert all(base.vol(d) % 2**64 == r or base.vol(d) == 2**32 + r for r, d in WRAPS)
+
+
 def small_param(rng, stats=None):
     shapes = [[], [2], [3], [2, 2], [1, 2], [2, 1, 1, 1, 1, 1, 1, 2]]
     p = rand_param(rng, shapes, 2)
@@ -159,7 +168,7 @@ def run(chk):
         for si, hx in enumerate(srcs):
             b = bytes.fromhex(hx)
             tgt = fresh_target(kind, o)
-            wl_, dev = rng.choice([0, 1, 1]), rng.choice("ne")
+            wl_, dev = rng.choice([0, 1, 1]), rng.choice("nem")
             if si == 0:
                 add(kind, wl_, dev, hx, tgt, "valid")
             # every truncation point
@@ -250,6 +259,14 @@ def run(chk):
             crafted("param", H(0x200) + body + base.mp_u32(1) + base.mp_str(b"m") + base.enc_shape([2], b2) + base.mp_bin(b"".join(struct.pack("<I", w) for w in sw)), tgt, True)
             crafted("param", H(0x200) + base.enc_shape(dims, b2) + base.mp_bin(payload) + base.mp_u32(0), tgt, True)
             crafted("param", H(0x200) + body + base.mp_u32(1) + base.mp_str(b"m") + base.enc_shape([2], 1) + base.mp_bin(b"".join(struct.pack("<I", w) for w in sw * b2)), tgt, True)
+        # dimensions whose product wraps modulo 2^64 (or 2^32) to a small number r, with a payload of r floats
+        for (r, wd) in WRAPS if not quick or rep == 0 else rng.sample(WRAPS, 4):
+            pl = b"".join(struct.pack("<I", w) for w in rand_words(rng, r))
+            rec_w = base.enc_shape(wd, 1) + base.mp_bin(pl) + base.mp_u32(0)
+            crafted("param", H(0x200) + rec_w, tgt, True)
+            wd2 = list(wd); rng.shuffle(wd2)
+            crafted("param", H(0x200) + base.enc_shape(wd2 + [1], 1) + base.mp_bin(pl) + base.mp_u32(0), tgt, True)
+            crafted("param", H(0x200) + body + base.mp_u32(1) + base.mp_str(b"m") + rec_w[:-5], tgt, True)   # as a statistics record
         # gigantic lengths
         crafted("param", H(0x200) + base.enc_shape(dims, 1) + b"\xc6\xff\xff\xff\xff" + payload, tgt, True)
         crafted("param", H(0x200) + base.enc_shape(dims, 1) + b"\xc6\x7f\xff\xff\xff" + payload, tgt, True)
@@ -271,6 +288,9 @@ def run(chk):
         crafted("model", H(0x300) + base.mp_u32(1) + base.mp_arr_hdr(1) + base.mp_bin(paths[0][0]) + rec(), mt, True)  # key element is bin
         crafted("model", H(0x300) + base.mp_u32(1) + b"\xdd\xff\xff\xff\xff" + rec(), mt, True)
         crafted("model", H(0x300) + base.mp_u32(2) + key(paths[0]) + rec() + key(paths[1]) + base.enc_param_record((dims, 2, rand_words(rng, 2 * n)), []), mt, True)
+        for (r, wd) in rng.sample(WRAPS, 3 if quick else len(WRAPS)):
+            pl = b"".join(struct.pack("<I", w) for w in rand_words(rng, r))
+            crafted("model", H(0x300) + base.mp_u32(2) + key(paths[0]) + rec() + key(paths[1]) + base.enc_shape(wd, 1) + base.mp_bin(pl) + base.mp_u32(0), mt, True)
         crafted("model", H(0x200) + good, mt, True)
         crafted("model", H(0x300) + base.mp_u32(0), mt, False)
         # optimizer files
@@ -298,17 +318,22 @@ def run(chk):
 
     # ------------------------------------------------------------ failing saves
     sf_lines, must_fail = [], {}
-    for idx in range(0, len(meta), 3 if quick else 1):
+    for idx in range(len(meta)):
         (kind, o, ws), mf = meta[idx], model_files[idx]
         if not mf:
             continue
-        n = len(mf) // 2
+        n = len(mf) // 2      # all of these files are smaller than the stream buffer: only the final flush can fail
         body = save_lines[idx][len("save "):]
-        for sink in ["full", "nodir", "isdir", "cap0", "cap1", "cap14", "cap%d" % (n - 1), "cap%d" % n, "cap%d" % (n + 10)]:
+        full = (idx % 3 == 0) or not quick
+        sinks = ["full", "nodir", "isdir", "cap0", "cap1", "cap14", "cap%d" % (n - 1), "cap%d" % n, "cap%d" % (n + 10)] if full \
+            else ["full", "cap%d" % (n - 1), "cap%d" % n]
+        for sink in sinks:
             l = "savefail %s %s" % (sink, body)
             sf_lines.append(l)
             cap = None if not sink.startswith("cap") else int(sink[3:])
-            if cap is None or cap < n:
+            if sink in ("nodir", "isdir"):
+                must_fail[l] = "%s:unopenable" % kind
+            elif cap is None or cap < n:
                 must_fail[l] = "%s:%s" % (kind, "device-full" if cap is None else "size-limit")
     # a file larger than the stream buffer: the failure happens in the middle of writing
     bigp = P(True, "n", T([3000], 1, rand_words(rng, 3000)), [0] * 3000, {b"m": T([3000], 1, rand_words(rng, 3000))})
